@@ -83,7 +83,9 @@ class StandardLengthType(DiagCodedType):
             bit_sz = bin(self.bit_mask).count("1")
             used_mask = (1 << bit_sz) - 1
 
-            return used_mask.to_bytes((bit_sz + 7) // 8, endianness)
+            # the mask covers the whole object, i.e., it is as long
+            # as the data which is emplaced into the PDU
+            return used_mask.to_bytes((max(bit_sz, self.bit_length) + 7) // 8, endianness)
 
         sz: int
         if isinstance(internal_value, BytesTypes):
